@@ -285,6 +285,27 @@ pub fn families(tier: Tier, _variant: &str) -> Vec<Family> {
         }
         v.push(Family::of_vec("cross/all-texts x all-types", all, |s, ctx| check_all_types(ctx, s)));
     }
+    // string bodies: escape head + plain run of every length + every B11 tail, into the string types
+    // (owned, borrowed, map key, element), bare and followed by more input
+    {
+        let (heads, max_run, tl) = if q { (2usize, 70u64, 3u32) } else { (3, 140, 3) };
+        v.push(Family::new("string-head-run-tail x string types", gen::head_run_tail_count(heads, max_run, tl), move |idx, ctx| {
+            let body = gen::head_run_tail_body(heads, max_run, tl, idx);
+            let Ok(b) = String::from_utf8(body) else {
+                ctx.outcome("skipped:not-utf8-text");
+                return;
+            };
+            let lit = format!("\"{b}\"");
+            check_typed::<String>(ctx, &lit);
+            check_typed::<String>(ctx, &format!("{lit}{}", " ".repeat(40)));
+            check_typed::<Vec<Option<String>>>(ctx, &format!("[{lit},null,\"{}\"]", "p".repeat(40)));
+            check_typed::<std::collections::BTreeMap<String, i32>>(ctx, &format!("{{{lit}:1,\"{}\":2}}", "p".repeat(40)));
+            check_borrowed(ctx, &format!("{lit}{}", " ".repeat(40)));
+            if serde_json::from_str::<String>(&lit).is_ok() {
+                ctx.nontrivial();
+            }
+        }));
+    }
     // numbers: the N10 space into every numeric type is C07; here quoted numbers as map keys
     {
         let k = gen::N10.len() as u64;
